@@ -41,9 +41,31 @@ fn force_ans<U: User, E: Engine<U>>(x: LTerm<U, E>) -> Goal<U, E> {
                 ]);
                 g.solve(solver, state)
             },
+            (LTermInner::<U, E>::Compound(compound), _) => {
+                // Label the fields of a compound term like the elements of a list
+                let goals: Vec<Goal<U, E>> = compound_terms(compound.as_ref())
+                    .into_iter()
+                    .map(|field| force_ans(field))
+                    .collect();
+                crate::operator::conj::Conj::from_vec(goals).solve(solver, state)
+            }
             (_, _) => solver.start(&Goal::Succeed, state),
         }
     })
+}
+
+/// The logic terms held by the fields of a compound object
+#[cfg(feature = "clpfd")]
+fn compound_terms<U: User, E: Engine<U>>(
+    compound: &dyn crate::compound::CompoundObject<U, E>,
+) -> Vec<LTerm<U, E>> {
+    match compound.as_term() {
+        Some(term) => vec![term.clone()],
+        None => compound
+            .children()
+            .flat_map(|child| compound_terms(child))
+            .collect(),
+    }
 }
 
 #[cfg(feature = "clpfd")]
